@@ -15,7 +15,7 @@ from .. import core, tlc
 from ..gamma import TEMPLATE_PREFIX, g_ctx, g_data, g_prog, prog_key
 from ..pool import pmap
 
-KEYS = ["value", "factor", "addend", "a", "b", "w", "t_values", "a.b", "a_b"]
+KEYS = ["value", "factor", "addend", "a", "b", "w", "t_values", "a.b", "a_b", "fit.parameters"]
 FREE = ["value", "factor", "addend", "a", "b", "w"]
 BOUND = 40000
 
@@ -105,6 +105,7 @@ def gen_program(rng: random.Random, maxlen: int = 8) -> Dict[str, Any]:
     ictx["t_values"] = dict(ABSENT)
     ictx["a.b"] = dict(ABSENT)
     ictx["a_b"] = dict(ABSENT)
+    ictx["fit.parameters"] = dict(ABSENT)
     prog = []
     for _ in range(n):
         t = ty if rng.random() > 0.15 else rng.choice(["none", "float", "coll"])
